@@ -117,9 +117,11 @@ class TimeoutHarness:
 
 def specs(tier):
     out = []
-    for ct in scen.CONN_TYPES:
+    for ct in list(scen.CONN_TYPES) + list(scen.LEGACY_TYPES):
         for variant in ("sync", "async"):
             for name, _ in tconfs():
+                if ct in scen.LEGACY_TYPES and tier == "quick" and name != "full":
+                    continue
                 if tier == "quick" and name.startswith("zero-") and name != "zero-read":
                     continue
                 if tier == "quick" and variant == "async" and name not in ("full", "no-read", "none"):
